@@ -10,7 +10,9 @@ import (
 	"strings"
 	"time"
 
+	"context"
 	"github.com/lab5e/lospan/pkg/model"
+	"github.com/lab5e/lospan/pkg/pb/lospan"
 	"github.com/lab5e/lospan/pkg/protocol"
 	"github.com/lab5e/lospan/pkg/server"
 )
@@ -279,17 +281,16 @@ func (h *histRunner) restartServer() {
 	h.tags["restart"]++
 }
 
-// the operator changes the device while the server runs: a new address (the device is re-personalised) or a new AppKey
-// (the device is re-provisioned); the row is read, changed and written back, as the service does
+// the operator changes the device while the server runs, through the service object (UpdateDevice): a new address (the
+// device is re-personalised), a new AppKey (re-provisioned), or the current session key written back unchanged
 func (h *histRunner) updateDevice(d *simDev) {
 	if !d.registered {
 		return
 	}
-	dev, err := h.w.store.GetDeviceByEUI(d.eui)
-	if err != nil {
-		return
-	}
-	if d.joined && !d.zeroKey && h.rng.Intn(2) == 0 {
+	eui := d.eui.String()
+	req := &lospan.Device{Eui: &eui}
+	switch k := h.rng.Intn(3); {
+	case k == 0 && d.joined && !d.zeroKey:
 		na := h.rng.Uint32() & 0x01ffffff
 		if na == d.addr || na == 0 {
 			na = d.addr ^ 0x55
@@ -297,15 +298,23 @@ func (h *histRunner) updateDevice(d *simDev) {
 		old := d.addr
 		d.formerAddr = &old
 		d.addr = na
-		dev.DevAddr = protocol.DevAddrFromUint32(na)
+		req.DevAddr = &na
 		h.tags["update.address"]++
-	} else {
+	case k == 1 && d.joined && !d.zeroKey:
+		// the current network session key sent again (what an operator's tool does when it writes a device back)
+		cur, err := h.w.store.GetDeviceByEUI(d.eui)
+		if err != nil {
+			return
+		}
+		req.NetworkSessionKey = append([]byte{}, cur.NwkSKey.Key[:]...)
+		h.tags["update.same-session-key"]++
+	default:
 		d.formerKey = d.appkey
 		d.appkey = genKey(h.rng)
-		copy(dev.AppKey.Key[:], d.appkey)
+		req.AppKey = append([]byte{}, d.appkey...)
 		h.tags["update.appkey"]++
 	}
-	err = h.w.store.UpdateDevice(dev)
+	_, err := h.w.service().UpdateDevice(context.Background(), req)
 	h.events = append(h.events, fmt.Sprintf("U,%x,%x,%s", uint64(d.eui.ToInt64()), d.addr, hx(d.appkey)))
 	h.obs = append(h.obs, fmt.Sprintf("U%d %s", b01(err == nil), h.dumpAll()))
 }
@@ -686,11 +695,11 @@ func runHistory(rng *rand.Rand, prof histProfile, w *Writer, suite string) {
 var profiles = map[string]histProfile{
 	"C01": {wUpdate: 25, badDatr: true, name: "C01", wUplink: 4, wCorrupt: 8, wJoin: 1, wSubmit: 1, wReplay: 1, maxDevs: 4, minEv: 8, maxEv: 25, shareAddr: 3},
 	"C02": {badDatr: true, name: "C02", wUplink: 10, wCorrupt: 0, wJoin: 1, wSubmit: 1, wReplay: 0, maxDevs: 3, minEv: 8, maxEv: 20, shareAddr: 8},
-	"C03": {badDatr: true, name: "C03", wUplink: 8, wCorrupt: 1, wJoin: 1, wSubmit: 2, wReplay: 5, maxDevs: 2, minEv: 10, maxEv: 30, shareAddr: 0},
+	"C03": {wUpdate: 20, badDatr: true, name: "C03", wUplink: 8, wCorrupt: 1, wJoin: 1, wSubmit: 2, wReplay: 5, maxDevs: 2, minEv: 10, maxEv: 30, shareAddr: 0},
 	"C04": {wUpdate: 12, badDatr: true, name: "C04", wUplink: 3, wCorrupt: 0, wJoin: 8, wSubmit: 0, wReplay: 0, maxDevs: 3, minEv: 6, maxEv: 16, shareAddr: 0},
 	"C05": {wUpdate: 30, badDatr: true, name: "C05", wUplink: 3, wCorrupt: 0, wJoin: 8, wSubmit: 1, wReplay: 1, maxDevs: 3, minEv: 8, maxEv: 20, shareAddr: 0, nonceOff: 3},
 	"C06": {maxSubmit: 59, name: "C06", wUplink: 8, wCorrupt: 2, wJoin: 1, wSubmit: 6, wReplay: 1, maxDevs: 4, minEv: 10, maxEv: 30, shareAddr: 6},
-	"C07": {badDatr: true, name: "C07", wUplink: 8, wCorrupt: 1, wJoin: 2, wSubmit: 3, wReplay: 1, maxDevs: 2, minEv: 10, maxEv: 30, confirmedOnly: true},
+	"C07": {wUpdate: 20, badDatr: true, name: "C07", wUplink: 8, wCorrupt: 1, wJoin: 2, wSubmit: 3, wReplay: 1, maxDevs: 2, minEv: 10, maxEv: 30, confirmedOnly: true},
 	"C08": {maxSubmit: 59, name: "C08", wUplink: 9, wCorrupt: 1, wJoin: 0, wSubmit: 5, wReplay: 1, maxDevs: 3, minEv: 12, maxEv: 30},
 	// a long life of one server under mostly undecodable / unauthentic radio payloads, valid traffic in between
 	"C11": {noRestart: true, maxSubmit: 40, name: "C11", wUplink: 2, wCorrupt: 6, wJoin: 1, wSubmit: 1, wReplay: 9, maxDevs: 1, minEv: 320, maxEv: 380},
@@ -715,6 +724,7 @@ var schedKinds = map[string][]string{
 	"C05": {"join-copies", "rejoin"},
 	"C07": {"copies", "consecutive", "regressed", "rejoin"},
 	"C09": {"copies"},
+	"C04": {"forged-join"},
 	"C06": {"consecutive"},
 	"C17": {"rejoin"},
 }
@@ -730,6 +740,10 @@ func init() {
 			suites[n] = hs
 		}
 	}
+	// C01: the histories feed the pipeline what a gateway reported; that the forwarder hands over exactly those bytes
+	// (whatever the entry's other keys say) is run on the real forwarder as well
+	h01, g01 := suites["C01"], suites["gwC01"]
+	suites["C01"] = func(rng *rand.Rand, tier string, w *Writer) { h01(rng, tier, w); g01(rng, tier, w) }
 	// C17: the gateway side (gw.go) and, for the delay clause, the pipeline handing a join-accept to whichever handler reads the buffer
 	gw17 := suites["C17"]
 	ss17 := schedSuite("schedC17", schedKinds["C17"], 9, 200)
